@@ -553,12 +553,12 @@ SOpenRet(c, res) ==
 
 SSend(c, pay) ==
   /\ c \in DOMAIN calls /\ calls[c].opened = "ok"
-  /\ CUpd(c, [calls[c] EXCEPT !.sent = Append(@, pay), !.late = Append(@, calls[c].cancelled)])
+  /\ CUpd(c, [calls[c] EXCEPT !.sent = Append(@, pay), !.late = Append(@, calls[c].cancelled \/ (calls[c].dl >= 0 /\ T >= calls[c].dl))])
 
 StreamMayBeOver(c) == \/ CtxDone(c) \/ CliDown \/ calls[c].sendFailed \/ "cwrite1" \in flt
                       \/ Cin(calls[c].id).close # "" \/ Cin(calls[c].id).mayRst \/ Cin(calls[c].id).fbad
 
-SSendRet(c, res) ==
+SSendRet(c, res, cls) ==
   /\ c \in DOMAIN calls /\ calls[c].opened = "ok"
   /\ calls[c].nOk < Len(calls[c].sent)
   /\ IF res = "ok"
@@ -566,6 +566,11 @@ SSendRet(c, res) ==
             /\ G("ctx", ~calls[c].late[calls[c].nOk + 1])  \* C07: a send begun after cancel fails
             /\ CUpd(c, [calls[c] EXCEPT !.nOk = @ + 1])
        ELSE /\ G("fault", StreamMayBeOver(c))
+            \* C07: a send begun after the caller's cancellation / deadline on a stream that had not ended otherwise
+            \* fails with the context's error (not io.EOF, not something else)
+            /\ LET x == Cin(calls[c].id) IN
+               G("ctx", (calls[c].late[calls[c].nOk + 1] /\ x.close = "" /\ ~x.mayRst /\ ~x.fbad /\ ~CliDown
+                         /\ ~calls[c].sendFailed /\ "cwrite1" \notin flt) => cls = "ctx")
             \* the message did not go out: drop it from the expected wire sequence
             /\ CUpd(c, [calls[c] EXCEPT !.sendFailed = TRUE,
                                         !.sent = IF calls[c].nW > calls[c].nOk THEN @ ELSE SubSeq(@, 1, calls[c].nOk) \o SubSeq(@, calls[c].nOk + 2, Len(@)),
@@ -619,7 +624,8 @@ SHdrRet(c, res, md, isnil) ==
   /\ c \in DOMAIN calls /\ calls[c].opened = "ok"
   /\ LET x == Cin(calls[c].id) IN
      ( \/ res = "ok" /\ x.n > 0 /\ ~x.fbad /\ ~isnil /\ G("md", md = x.fmd)        \* C04
-       \/ res = "ok" /\ isnil /\ StreamMayBeOver(c)  \* (nil, nil): stream ended without headers
+       \* (nil, nil): the stream ended without headers - but never when the first envelope delivered carried some (C04)
+       \/ res = "ok" /\ isnil /\ StreamMayBeOver(c) /\ G("md", x.n = 0 \/ x.fbad \/ x.fmd = EmptyF)
        \/ res = "err" /\ StreamMayBeOver(c) ) = TRUE
   /\ CUpd(c, calls[c])
 
